@@ -368,3 +368,52 @@ func Mutate(s *core.Stream, b []byte) []byte {
 	}
 	return out
 }
+
+// Tower builds a text nested 9998..10002 deep in a drawn mix of arrays and
+// objects with a drawn leaf, optionally truncated or followed by more values.
+func Tower(s *core.Stream) []byte {
+	depth := 9998 + s.Draw(5)
+	mix := s.Draw(4) // 0 arrays, 1 objects, 2 alternating, 3 random
+	leaf := []string{"", "1", "\"\"", "{}", "[]", "null", "{\"a\":[]}", "[{}]"}[s.Draw(8)]
+	var b []byte
+	kinds := make([]bool, depth) // true = object
+	for i := 0; i < depth; i++ {
+		obj := false
+		switch mix {
+		case 1:
+			obj = true
+		case 2:
+			obj = i%2 == 1
+		case 3:
+			obj = s.Draw(2) == 1
+		}
+		kinds[i] = obj
+		if obj {
+			b = append(b, `{"a":`...)
+		} else {
+			b = append(b, '[')
+		}
+	}
+	if leaf == "" {
+		// innermost container is empty: drop the pending name if it is an object
+		if kinds[depth-1] {
+			b = b[:len(b)-len(`"a":`)]
+		}
+	} else {
+		b = append(b, leaf...)
+	}
+	for i := depth - 1; i >= 0; i-- {
+		if kinds[i] {
+			b = append(b, '}')
+		} else {
+			b = append(b, ']')
+		}
+	}
+	switch s.Draw(4) {
+	case 1:
+		b = append(b, " 1"...)
+	case 2:
+		b = b[:len(b)-1-s.Draw(3)]
+	}
+	return b
+}
